@@ -140,6 +140,114 @@ PROPS = {
     "C04": mutex_prop("C04", 4, fair_only=True),
 }
 
+LIST = "intrusive_double_linked_list::verif_list::proofs"
+HEAP = "intrusive_pairing_heap::verif_heap::proofs"
+RING = "buffer::ring_buffer::verif_ring::proofs"
+
+
+def c20_prop():
+    quick = [
+        H(LIST, "list_step_k5", "step", profile="full", est_s=110,
+          bounds="E-STEP list: ANY well-formed list over a subset of 5 nodes (links written directly), 1 of add_front/"
+                 "remove_first/remove_last/remove(any node)/drain/reverse_drain; deque model + structural validator; all Kani default checks"),
+        H(LIST, "list_buildstep_k5", "hold", replay=("list_buildstep", 5), est_s=60,
+          bounds="constructive step: any list over <= 5 nodes built by real add_front calls, then 1 arbitrary operation (a history from empty)"),
+        H(LIST, "list_witness_buildstep_k4", "witness", replay=("list_buildstep", 4), witness_bit=1, est_s=40,
+          bounds="witness twin: a middle node is removed"),
+        H(HEAP, "heap_step_k4", "step", profile="full", est_s=340, timeout=900,
+          bounds="E-STEP heap: ANY heap-ordered multiway tree over a subset of 4 nodes (symbolic parent map, sibling order, keys in a "
+                 "3-value set), insert(non-member) | remove(any member); structural validator + peek_min minimality; all Kani default checks"),
+        H(HEAP, "heap_hist_k3_n4", "hold", replay=("heap_hist", 3), est_s=120,
+          bounds="E-HIST heap from empty: 3 nodes, <= 4 operations, keys 0..2, re-insertion allowed"),
+        H(HEAP, "heap_hist_k4_p4_n6", "hold", replay=("heap_hist", 4 | (4 << 4)), est_s=200,
+          bounds="E-HIST heap: insert 4 nodes (symbolic keys), then <= 2 arbitrary operations"),
+        H(HEAP, "heap_witness_k4_n6", "witness", replay=("heap_hist", 4 | (4 << 4)), witness_bit=2, est_s=200,
+          bounds="witness twin: the root is removed while it has >= 3 children"),
+    ]
+    thorough = quick + [
+        H(LIST, "list_hist_k4_n6", "hold", replay=("list_hist", 4), est_s=320, timeout=3000,
+          bounds="E-HIST list from empty: 4 nodes, <= 6 operations"),
+        H(LIST, "list_hist_k5_n8", "hold", replay=("list_hist", 5), est_s=2000, timeout=3400, bonus=True,
+          bounds="E-HIST list from empty: 5 nodes, <= 8 operations (bonus)"),
+        H(HEAP, "heap_step_k5_insert", "step", profile="full", est_s=160, timeout=3000, bounds="E-STEP heap, 5 nodes, insert"),
+        H(HEAP, "heap_step_k5_remove", "step", profile="full", est_s=1500, timeout=3400,
+          bounds="E-STEP heap, ANY tree over 5 nodes, remove(any member)"),
+        H(HEAP, "heap_hist_k3_n5", "hold", replay=("heap_hist", 3), est_s=400, timeout=3000, bounds="E-HIST heap: 3 nodes, <= 5 operations"),
+        H(HEAP, "heap_hist_k4_n6", "hold", replay=("heap_hist", 4), est_s=3000, timeout=3400, bonus=True,
+          bounds="E-HIST heap: 4 nodes, <= 6 operations (bonus)"),
+        H(HEAP, "heap_hist_k5_p5_n8", "hold", replay=("heap_hist", 5 | (5 << 4)), est_s=2000, timeout=3400, bonus=True,
+          bounds="E-HIST heap: insert 5 nodes, then <= 3 arbitrary operations (bonus)"),
+    ]
+    return {"quick": quick, "thorough": thorough,
+            "functions": ["LinkedList::add_front", "LinkedList::remove_first", "LinkedList::remove_last", "LinkedList::remove",
+                          "LinkedList::drain", "LinkedList::reverse_drain", "LinkedList::peek_first", "LinkedList::peek_last",
+                          "LinkedList::is_empty", "PairingHeap::insert", "PairingHeap::remove", "PairingHeap::peek_min",
+                          "meld", "maybe_meld", "add_child", "merge_children", "last_child", "unlink_prev", "safe_lesser"],
+            "instantiations": ["LinkedList<u8>", "PairingHeap<u8>"],
+            "bounds": {"quick": {"list_nodes": 5, "heap_nodes": 4, "heap_keys": "0..2", "step_history_length": "unbounded (any well-formed shape)"},
+                       "thorough": {"list_nodes": 5, "heap_nodes": 5, "hist_ops": "list 6 (8 bonus), heap 5 (6 bonus)"}},
+            "assumptions": ["the documented preconditions are respected (add_front/insert only for non-members, remove(heap) only for members)",
+                            "every heap-ordered multiway tree is a valid pairing heap (no balance invariant), so the heap step needs no reachability strengthening"]}
+
+
+def c19_prop():
+    quick = [H(RING, "array_step_c%d" % c, "step", profile="full", est_s=20,
+               bounds="E-STEP ArrayBuf<Tag,[Tag;%d]>: symbolic size/recv_idx/send_idx + contents under the index invariant, "
+                      "1 of push|pop|Drop, drop counters, all Kani default checks (MaybeUninit accesses)" % c) for c in range(5)]
+    quick += [H(RING, "array_hist_c%d" % c, "hold", replay=("ring_hist_array", c), est_s=30,
+                bounds="E-HIST ArrayBuf capacity %d: %d push/pop operations vs FIFO model, drop counters at the end" % (c, 2 * c + 2))
+              for c in range(5)]
+    for kind in ("fixed", "growing"):
+        quick += [H(RING, "%s_hist_c0" % kind, "hold", replay=("ring_hist_%s" % kind, 0), est_s=10, bounds="%sHeapBuf capacity 0, 2 operations" % kind),
+                  H(RING, "%s_hist_c1" % kind, "hold", replay=("ring_hist_%s" % kind, 1), est_s=10, bounds="%sHeapBuf capacity 1, 4 operations" % kind),
+                  H(RING, "%s_hist_c2_n3" % kind, "hold", replay=("ring_hist_%s" % kind, 2), est_s=15, bounds="%sHeapBuf capacity 2, 3 operations" % kind)]
+    quick.append(H(RING, "array_witness_c2", "witness", replay=("ring_hist_array", 2), witness_bit=5, est_s=20,
+                   bounds="witness twin: index wrap-around and drop of a non-empty buffer"))
+    thorough = quick + [
+        H(RING, "fixed_hist_c2_n4", "hold", replay=("ring_hist_fixed", 2), est_s=600, timeout=1500, mem_gb=30, bonus=True,
+          bounds="FixedHeapBuf capacity 2, 4 operations (VecDeque wrap-around; bonus, ran out of memory at 15 GB in probes)"),
+    ]
+    return {"quick": quick, "thorough": thorough,
+            "functions": ["ArrayBuf::push", "ArrayBuf::pop", "ArrayBuf::next_idx", "<ArrayBuf as Drop>::drop", "ArrayBuf::len/can_push/capacity/is_empty",
+                          "FixedHeapBuf::{with_capacity,push,pop,len,can_push,capacity}", "GrowingHeapBuf::{with_capacity,push,pop,len,can_push,capacity}"],
+            "instantiations": ["ArrayBuf<Tag,[Tag;C]> for C in 0..4", "FixedHeapBuf<Tag>", "GrowingHeapBuf<Tag>"],
+            "bounds": {"array_capacity": "0..4 (E-STEP: any reachable or unreachable index state; E-HIST: 2C+2 operations)",
+                       "heap_backed": "capacity 0 (2 ops), 1 (4 ops), 2 (3 ops): alloc::VecDeque's own index arithmetic makes deeper "
+                                      "scripts run out of memory in CBMC; VecDeque itself is trusted"},
+            "assumptions": ["push only when can_push(), pop only when non-empty (the RingBuf contract)",
+                            "alloc::collections::VecDeque is trusted for the heap-backed buffers beyond the stated script lengths"]}
+
+
+EVENT = "sync::manual_reset_event::verif_event::proofs"
+
+
+def c14_prop():
+    quick = [
+        H(EVENT, "step_c14", "step", est_s=30, bounds="E-STEP: K=3 wait futures in arbitrary states (new/waiting/latched/terminated), arbitrary queue order "
+                                                      "and stored wakers, event set|reset, 1 of poll(A|B)/drop/set/reset"),
+        H(EVENT, "step_base", "hold", est_s=5, bounds="base case of the invariant"),
+        H(EVENT, "hist_c14_n6", "hold", replay=("event_hist_noop", 2), mask=P(14), est_s=120,
+          bounds="E-HIST: K=3 slots (re-creatable), N=6 operations from new(symbolic), 11-way alphabet, wakers A|B, symmetry broken"),
+        H(EVENT, "witness_reset_n6", "witness", replay=("event_hist_noop", 2), mask=PALL, witness_bit=2, est_s=120,
+          bounds="witness twin: a waiter completes although reset() came between set() and its re-poll"),
+    ]
+    thorough = quick + [
+        H(EVENT, "hist_c14_n7", "hold", replay=("event_hist_noop", 2), mask=P(14), est_s=600, timeout=3000, bounds="E-HIST: K=3, N=7"),
+        H(EVENT, "hist_c14_n6_check", "hold", replay=("event_hist_check", 2), mask=P(14), est_s=300, timeout=3000,
+          bounds="E-HIST: K=3, N=6, MutexType=CheckLock"),
+        H(EVENT, "hist_c14_n8", "hold", replay=("event_hist_noop", 2), mask=P(14), est_s=2500, timeout=3400, bonus=True,
+          bounds="E-HIST: K=3, N=8 (bonus)"),
+    ]
+    return {"quick": quick, "thorough": thorough,
+            "functions": ["EventState::set", "EventState::reset", "EventState::is_set", "EventState::try_wait", "EventState::remove_waiter",
+                          "<GenericWaitForEventFuture as Future>::poll", "<GenericWaitForEventFuture as Drop>::drop",
+                          "LinkedList::add_front", "LinkedList::remove", "LinkedList::reverse_drain", "utils::update_waker_ref"],
+            "instantiations": ["GenericManualResetEvent<NoopLock>", "GenericManualResetEvent<CheckLock> (thorough)"],
+            "bounds": {"quick": {"K_live_futures": 3, "N_ops": 6, "step_history_length": "unbounded (inductive)"},
+                       "thorough": {"K_live_futures": 3, "N_ops": 7, "N_ops_bonus": 8}},
+            "assumptions": []}
+
+
 def _c16(prop, tier, seed):
     import os, sys
     sys.path.insert(0, os.path.join(os.path.dirname(os.path.abspath(__file__)), "c16"))
@@ -148,6 +256,9 @@ def _c16(prop, tier, seed):
 
 
 CUSTOM = {"C16": _c16}
+PROPS["C14"] = c14_prop()
+PROPS["C19"] = c19_prop()
+PROPS["C20"] = c20_prop()
 PROPS["C16"] = {
     "quick": [], "thorough": [], "engine": "trait-smt",
     "technique": "SMT (z3, cross-checked with cvc5) over trait-membership formulas regenerated from rustc's impl table; counterexamples replayed by rustc on a probe crate",
@@ -230,8 +341,43 @@ def decode_sem(cfg, script):
     return out
 
 
-DECODERS = {"mutex_hist_noop": decode_mutex, "mutex_hist_check": decode_mutex,
+def decode_ring(cfg, script):
+    return ["capacity %d" % cfg] + [("push Tag(next)" if b == 0 else "pop" if b == 1 else "<byte %d>" % b) for b in script]
+
+
+def decode_raw(cfg, script):
+    return ["cfg=%d" % cfg, "script bytes (stop flag / op / operands interleaved, see harness/inc): %s" % list(script)]
+
+
+DECODERS = {"ring_hist_array": decode_ring, "ring_hist_fixed": decode_ring, "ring_hist_growing": decode_ring,
+            "list_hist": decode_raw, "list_buildstep": decode_raw, "heap_hist": decode_raw}
+DECODERS_OLD = {"mutex_hist_noop": decode_mutex, "mutex_hist_check": decode_mutex,
             "sem_hist_noop": decode_sem, "sem_hist_check": decode_sem}
+DECODERS.update(DECODERS_OLD)
+
+
+def decode_event(cfg, script):
+    it = iter(script)
+    out = []
+    if cfg & 3 == 2:
+        out.append("new(is_set=%s)" % bool(next(it, 0)))
+    else:
+        out.append("new(is_set=%s)" % (cfg & 3 == 1))
+    for op in it:
+        if op < 6:
+            out.append("poll wait-future #%d with waker %s (re-created first if dropped)" % (op // 2, "AB"[op % 2]))
+        elif op < 9:
+            out.append("drop wait-future #%d" % (op - 6))
+        elif op == 9:
+            out.append("set()")
+        elif op == 10:
+            out.append("reset()")
+        else:
+            out.append("<byte %d>" % op)
+    return out
+
+
+DECODERS.update({"event_hist_noop": decode_event, "event_hist_check": decode_event})
 
 
 def decode(name, cfg, script):
